@@ -186,6 +186,7 @@ class Model(object):
         self.idx = None
         self.done = not (self.f > self.conv)
         self.rows = {"hlog": [], "glog": []}
+        self.iter_end_rows = set()
         self.iter_headers = 1          # "iter 1:" is written up front
         self.last_hlocal = {}
 
@@ -253,6 +254,8 @@ class Model(object):
     def apply_flat(self, info):
         """called once the flat decision is known (model's or, inside an ambiguity window, the implementation's)"""
         self.rows["hlog"].append([self.nchecks_in_iter_inc()] + list(info["hlocal"]))
+        if info["flat"]:
+            self.iter_end_rows.add(len(self.rows["hlog"]))
         self.last_hlocal[self.niter + 1] = list(info["hlocal"])
         if info["flat"]:
             f_iter = self.f
@@ -313,6 +316,7 @@ class WLSim(object):
         self.rnd = ctx.streams.stream("wl_tape_%d" % run_no)
         self.input_sorted = sorted(plan["seq"])
         self.prop = None              # proposal made by a move and not yet decided
+        self.draws_before_move = 0
         self.pending_hook = {}
         self.step = None             # info on the step whose u was just drawn
         self.kappa_memo = {}
@@ -361,6 +365,7 @@ class WLSim(object):
         if self.prop is not None:
             self.resolve_without_draw()
         self.prop = {"kind": kind, "p": parent, "q": child}
+        self.draws_before_move = 0
         self.ctx.log.emit("move", mv=kind, p=parent, c=child)
 
     def on_hook(self, kind, fields):
@@ -377,6 +382,9 @@ class WLSim(object):
     # --- r draw: start of a step
     def draw_r(self):
         m = self.model
+        self.draws_before_move += 1
+        if self.draws_before_move > 1:
+            raise Discard("more than one WL draw before the move: the RNG seam cannot tell which of them decides acceptance")
         if self.step is not None and not self.synced:
             self.sync_after_step()
         if m.done:
@@ -660,7 +668,9 @@ class WLSim(object):
                 self.viol("output_disagrees", "return_g", "returned g[%d]=%r, bookkeeping gives %r" % (i, arr[1][i], m.g[i]))
         # iteration headers complete
         iters = [r for r in self.disk_rows["hlog.txt"] if len(r) == 2 and r[0][0].lower() == "iter"]
-        if len(iters) != m.iter_headers:
+        if not iters:
+            self.ctx.probe("hlog_without_iteration_headers")       # the captions are not part of the statement
+        elif len(iters) != m.iter_headers:
             self.viol("log_disagrees", "hlog_iter_headers", "hlog announces %d iterations, the bookkeeping started %d" % (len(iters), m.iter_headers))
         self.check_static_files(strict=True)
         self.check_increments()
@@ -719,12 +729,21 @@ class WLSim(object):
         # split hlog numeric rows by iteration headers
         per_iter = []
         cur = None
-        for r in hl:
-            if len(r) == 2 and r[0][0].lower() == "iter":
-                cur = []
-                per_iter.append(cur)
-            elif numeric(r) and cur is not None:
-                cur.append(r)
+        if any(len(r) == 2 and r[0][0].lower() == "iter" for r in hl):
+            for r in hl:
+                if len(r) == 2 and r[0][0].lower() == "iter":
+                    cur = []
+                    per_iter.append(cur)
+                elif numeric(r) and cur is not None:
+                    cur.append(r)
+        else:
+            # no iteration captions in the log: the rows are split where the bookkeeping says an iteration ended
+            rows = [r for r in hl if numeric(r)]
+            ends = [k for k, row in enumerate(m.rows["hlog"]) if k + 1 in m.iter_end_rows]
+            start = 0
+            for e in ends:
+                per_iter.append(rows[start:e + 1])
+                start = e + 1
         prev = [0.0] * m.M
         for k, gr in enumerate(grows):
             gvals = [v for _, v in gr[1:]]
